@@ -78,7 +78,7 @@ CHECKS = {
    design_ref="DESIGN.md section 6, C09",
    note="Trusted: project.h, WellFormed as the hypothesis, TLC. Helpers documented as needing cpusets are not called on I/O or Misc objects; an infinite tail in an argument set is cut at index 1023; errno values are not judged. Distrib disjointness is demanded when n <= #PUs and `until` does not cut the recursion (see DESIGN.md)."),
  "C10": dict(
-   technique="explicit TLA+ relation per binding entry point (spec/Bind.tla Rel) plus the canonical-form equivalence SameHandling, TLC-exhaustive bounded model of bind.c with dummy and Linux hooks over an abstract kernel checked against it (spec/MC_Bind.tla) on 10 hand-picked topology kinds and on one topology per model-computed shape class (spec/MC_BindShape.tla) with model-computed boundary classes of sets (spec/BindClasses.tla), transition tours (each memory request followed by its canonical twin) replayed on the rebuilt library with sched_setaffinity, pthread_setaffinity_np and syscall() interposed, and the recorded ndjson validated by TLC (spec/TraceBind.tla)",
+   technique="explicit TLA+ relation per binding entry point (spec/Bind.tla Rel: argument validation, legal sets only, the canonical-form equivalence SameHandling, and WholeServed - unconstrained requests under an announced policy must reach the OS), TLC-exhaustive bounded model of bind.c with dummy and Linux hooks over an abstract kernel checked against it (spec/MC_Bind.tla) on 10 hand-picked topology kinds and on one topology per model-computed shape class (spec/MC_BindShape.tla) with model-computed boundary classes of sets (spec/BindClasses.tla), transition tours (each memory request followed by its canonical twin) replayed on the rebuilt library with sched_setaffinity, pthread_setaffinity_np and syscall() interposed, and the recorded ndjson validated by TLC (spec/TraceBind.tla)",
    category="model_checking",
    text="The bounded model is explored exhaustively (10 topology kinds x all flag words x all sets over 6-7 atoms x policies; all reachable affinity and policy states); every explored transition (thorough) or a seeded fraction (quick) is executed on the real library and each event, including what reached the OS, is decided by the relation; live round trips run on this machine.",
    design_ref="DESIGN.md section 6, C10",
